@@ -8,8 +8,26 @@ def rng_for(seed, *tags):
     return np.random.default_rng(int.from_bytes(h[:8], "little"))
 
 
-def grid(rng, n=None, kind=None, lo=None, hi=None, zero=None):
-    """strictly increasing abscissa grid; returns (x, kind-string)"""
+EXTRA_GRIDS = ["nearuniform", "tiny", "huge"]
+
+
+def grid(rng, n=None, kind=None, lo=None, hi=None, zero=None, extra=0.0):
+    """strictly increasing abscissa grid; returns (x, kind-string).
+    `extra` = probability of one of the stress kinds: "nearuniform" (bin widths equal to ~1e-7 relative: every
+    tolerance-based uniformity test says yes, the grid is not uniform), "tiny" / "huge" (an ordinary grid in units
+    1e-9 / 1e5 times smaller / larger: absolute tolerances and unit assumptions show)"""
+    if kind is None and extra and rng.random() < extra:
+        kind = str(rng.choice(EXTRA_GRIDS))
+    if kind in ("tiny", "huge"):
+        x, k = grid(rng, n=n, kind=str(rng.choice(["uniform", "jitter", "irregular"])), lo=lo, hi=hi, zero=zero)
+        return np.ascontiguousarray(x * (1e-9 if kind == "tiny" else 1e5)), kind + "-" + k
+    if kind == "nearuniform":
+        x, _ = grid(rng, n=n, kind="uniform", lo=lo, hi=hi, zero=zero)
+        if len(x) > 2:
+            d = (x[-1] - x[0]) / (len(x) - 1)
+            x = x.copy()
+            x[1:-1] += rng.uniform(-1, 1, len(x) - 2) * d * float(10 ** rng.uniform(-7.5, -5.5))
+        return np.ascontiguousarray(x), kind
     kind = kind or rng.choice(["uniform", "jitter", "irregular", "centi"])
     n = n or int(rng.integers(2, 60))
     hi = hi if hi is not None else float(rng.uniform(2.0, 30.0))
@@ -53,6 +71,25 @@ def data(rng, x, kind=None, base=0.0):
     return np.ascontiguousarray(y, dtype=float), kind
 
 
+def special(rng, y, base=0.0, p=0.3):
+    """with probability p, set some entries (often the first and/or last) to exactly `base` (reduced function exactly 0):
+    the values at which `if v == 0`, `v or default`, `np.any(v)` style shortcuts fire"""
+    y = np.array(y, dtype=float)
+    if rng.random() < p and len(y):
+        m = rng.random(len(y)) < rng.uniform(0.0, 0.4)
+        if rng.random() < 0.6:
+            m[0] = True
+        if rng.random() < 0.4:
+            m[-1] = True
+        y[m] = base
+    return y
+
+
+def unc_relative(rng, y, base=0.0):
+    """uncertainty proportional to |y - base| (exactly zero wherever the reduced function is exactly zero)"""
+    return np.ascontiguousarray(np.abs(np.asarray(y, dtype=float) - base) * float(10 ** rng.uniform(-3, -0.5)))
+
+
 def unc(rng, x, allow_none=True):
     r = rng.random()
     if allow_none and r < 0.25:
@@ -62,9 +99,23 @@ def unc(rng, x, allow_none=True):
     return np.ascontiguousarray(rng.uniform(0.0, 1.0, len(x)) * 10 ** rng.uniform(-3, 0), dtype=float)
 
 
-def material(rng, negative_bcoh=False):
+def material(rng, negative_bcoh=False, special=True):
     kw = {"rho": float(10 ** rng.uniform(-2.5, 0.3)), "<b_coh>^2": float(10 ** rng.uniform(-1, 1.5)),
           "<b_tot^2>": float(10 ** rng.uniform(-1, 1.5))}
+    if special:
+        # constants at which `x or default`, `if x:`, `x != 1` style shortcuts fire: <b_tot^2> = 0 (a legitimate value of
+        # "all <b_tot^2>"), <b_coh>^2 = 1, rho = 1, <b_tot^2> = <b_coh>^2
+        r = rng.random()
+        if r < 0.12:
+            kw["<b_tot^2>"] = 0.0
+        elif r < 0.17:
+            kw["<b_tot^2>"] = kw["<b_coh>^2"]
+        r = rng.random()
+        if r < 0.08:
+            kw["<b_coh>^2"] = 1.0
+        r = rng.random()
+        if r < 0.06:
+            kw["rho"] = 1.0
     if negative_bcoh and rng.random() < 0.3:
         kw["<b_coh>^2"] = -kw["<b_coh>^2"]
     return kw
